@@ -1,6 +1,7 @@
 import TypifyModel.Proofs.C05
 import TypifyModel.Proofs.C05Enc
 import TypifyModel.Proofs.Tagging
+import TypifyModel.Proofs.ConvertEnum
 open TypifyModel.C05
 #print axioms charCount_eq_length
 #print axioms string_constraints_enforced
@@ -20,3 +21,8 @@ open TypifyModel.C05
 #print axioms TypifyModel.Tagging.external_names_nodup
 #print axioms TypifyModel.Tagging.adjacent_sound
 #print axioms TypifyModel.Tagging.internal_panics_only_on_assert
+#print axioms TypifyModel.ConvertEnum.enum_string_variants_exact
+#print axioms TypifyModel.ConvertEnum.typed_enum_values_exact
+#print axioms TypifyModel.ConvertEnum.enum_string_option_iff_null
+#print axioms TypifyModel.ConvertEnum.unknown_enum_of_strings
+#print axioms TypifyModel.ConvertEnum.length_bound_counts_characters
